@@ -66,6 +66,25 @@ func loopHeadOf(in ssa.Instruction) *ssa.BasicBlock {
 	return nil
 }
 
+// isAtomicAddOne: the call advances a 32-bit counter atomically by one: atomic.AddUint32(&x, 1) or (*atomic.Uint32).Add(&x, 1).
+func isAtomicAddOne(cc *ssa.CallCommon) bool {
+	if cc == nil {
+		return false
+	}
+	if callIs(cc, "sync/atomic.AddUint32") && len(cc.Args) == 2 {
+		k, ok := constInt(cc.Args[1])
+		return ok && k == 1
+	}
+	if f := calleeFunc(cc); f != nil && f.Name() == "Add" && f.Pkg() != nil && f.Pkg().Path() == "sync/atomic" {
+		args := argsOf(cc)
+		if len(args) == 1 {
+			k, ok := constInt(args[0])
+			return ok && k == 1 && typeName(recvOf(cc).Type()) == "Uint32"
+		}
+	}
+	return false
+}
+
 func runC03(c *Ctx) {
 	p := c.P
 	pos := func(in ssa.Instruction) string { return p.Pos(in.Pos()) }
@@ -88,10 +107,8 @@ func runC03(c *Ctx) {
 			if good {
 				good = false
 				for _, r := range *a.In.(ssa.Value).Referrers() {
-					if cc := callOf(r); cc != nil && callIs(cc, "sync/atomic.AddUint32") {
-						if k, ok := constInt(cc.Args[1]); ok && k == 1 {
-							good = true
-						}
+					if cc := callOf(r); isAtomicAddOne(cc) {
+						good = true
 					}
 				}
 			}
@@ -105,7 +122,7 @@ func runC03(c *Ctx) {
 		eachInstr(nextID, func(in ssa.Instruction) {
 			if r, ok := in.(*ssa.Return); ok && isReturn(in) {
 				for _, l := range leavesOf(r.Results[0]) {
-					if l.Kind == leafCallResult && callIs(l.Call, "sync/atomic.AddUint32") {
+					if l.Kind == leafCallResult && isAtomicAddOne(l.Call) {
 						ret = true
 					}
 				}
@@ -215,7 +232,7 @@ func runC03(c *Ctx) {
 						c.ok("R2", "Write in sendPacket", pos(in), "frame bytes written by the framing function")
 						return
 					}
-					if conny && fn.Name() == "Write" {
+					if conny {
 						// a writer type wrapped round the connection: its Write is part of the framing function when
 						// the framing function is its only caller (resolved on the VTA call graph)
 						only, callers := true, 0
@@ -229,6 +246,10 @@ func runC03(c *Ctx) {
 								cf := e.Caller.Func
 								if cf.Synthetic != "" && cf != pkgSend {
 									visit(cf, d+1) // pointer-receiver and bound-method wrappers
+									continue
+								}
+								if cf != pkgSend && cf.Name() == "Write" && cf.Signature.Recv() != nil {
+									visit(cf, d+1) // an adapter type whose Write hands the bytes on (a func type with a Write method)
 									continue
 								}
 								callers++
@@ -531,6 +552,29 @@ func runC03(c *Ctx) {
 
 // sameValue: two SSA values denote the same runtime value in one function activation
 // (identical, or both loads/fields of the same local).
+// sameValueModNil is sameValue where a nil that one of the two may be on paths that do not matter here (a result
+// zeroed on the error path of code inlined from a helper) is left out of the comparison.
+func sameValueModNil(a, b ssa.Value) bool {
+	if sameValue(a, b) {
+		return true
+	}
+	strip := func(ls []leaf) []leaf {
+		var out []leaf
+		for _, l := range ls {
+			if k, ok := l.V.(*ssa.Const); ok && k.Value == nil {
+				continue
+			}
+			out = append(out, l)
+		}
+		return out
+	}
+	la, lb := strip(leavesOf(a)), strip(leavesOf(b))
+	if len(la) != 1 || len(lb) != 1 {
+		return false
+	}
+	return la[0].V == lb[0].V
+}
+
 func sameValue(a, b ssa.Value) bool {
 	if a == b {
 		return true
@@ -1452,6 +1496,23 @@ func checkWriteFailureLatched(c *Ctx, rule string) {
 		}
 		c.looked(fnName(w))
 		writes := callsWhere(w, func(cc *ssa.CallCommon) bool { return cc.IsInvoke() && cc.Method.Name() == "Write" })
+		if len(writes) == 0 {
+			// an adapter (a func type with a Write method): the function it hands the bytes to does the writing
+			for _, in := range anyCallsWhere(w, func(cc *ssa.CallCommon) bool { return !cc.IsInvoke() && cc.StaticCallee() == nil }) {
+				if site, ok := in.(ssa.CallInstruction); ok {
+					for _, callee := range p.calleesAt(site) {
+						for callee != nil && callee.Synthetic != "" && len(staticCallees(callee)) == 1 {
+							callee = staticCallees(callee)[0]
+						}
+						if callee != nil && callee.Blocks != nil && inModule(callee) {
+							if ws := callsWhere(callee, func(cc *ssa.CallCommon) bool { return cc.IsInvoke() && cc.Method.Name() == "Write" }); len(ws) > 0 {
+								w, writes = callee, ws
+							}
+						}
+					}
+				}
+			}
+		}
 		if len(writes) == 0 {
 			c.und(rule, key, p.Pos(w.Pos()), fnName(w)+" does not write to a transport")
 			continue
